@@ -48,7 +48,7 @@ NOT_CARRIED = ["_load_config_file (ConfigParser): an assumed contract - one _upd
                "(e.g. INSIGHTS_OUTPUT_DIR=true): counted as 'loading does not succeed', not as a violation"]
 
 
-def bounded(check):
+def _bounded0(check):
     """bounded stand-in / native witness search: the real load_all with a real file, environment and command line"""
     import json, os, subprocess
     here = os.path.dirname(os.path.dirname(os.path.abspath(__file__)))
@@ -72,3 +72,8 @@ def bounded(check):
                   open(path, "w"), indent=1)
         out["replay"] = path
     return [out]
+
+
+def bounded(check):
+    from props._xcheck import xcheck
+    return list(_bounded0(check)) + [xcheck(check, ['client_config'], 'config')]
